@@ -347,6 +347,14 @@ Theorem C02_kmeans_trace_final : forall A R rot D cfg points weights part,
 Proof. exact KMeansTrace.kmeans_trace_final. Qed.
 Print Assumptions C02_kmeans_trace_final.
 
+(* the event-recording run the correspondence compares with the `coupe_verif`
+   records of k_means.rs (assignments, bounds, influences of every assignment
+   step) has the result of the model proper *)
+Theorem C02_kmeans_events_final : forall A R rot D cfg points weights part,
+  KMeansTrace.res_fst (kmeans_events A R rot D cfg points weights part) = kmeans A R rot D cfg points weights part.
+Proof. exact KMeansTrace.kmeans_events_final. Qed.
+Print Assumptions C02_kmeans_events_final.
+
 (* the source still has the shape the model mirrors (26 fragments / operators) *)
 Theorem C02_kmeans_source_shape : forallb (fun b => b) km_source_shape = true.
 Proof. exact km_source_shape_ok. Qed.
